@@ -286,48 +286,7 @@ func checkC16(p *Program, r *Report) {
 		}
 	}
 
-	// R4: Call / CallSlice follow the flag
-	nCalls := 0
-	for _, fn := range m.fns {
-		for _, b := range fn.Blocks {
-			for _, in := range b.Instrs {
-				c, ok := in.(*ssa.Call)
-				if !ok {
-					continue
-				}
-				o := calleeObj(c)
-				if o == nil || o.Pkg() == nil || o.Pkg().Path() != "reflect" || (o.Name() != "Call" && o.Name() != "CallSlice") || o.Type().(*types.Signature).Recv() == nil {
-					continue
-				}
-				// where is the decision made: here, or where the closure containing the call is created
-				siteFn, siteBlock := fn, b
-				if fn.Parent() != nil {
-					for _, pb := range fn.Parent().Blocks {
-						for _, pin := range pb.Instrs {
-							if mc, ok := pin.(*ssa.MakeClosure); ok && mc.Fn == ssa.Value(fn) {
-								siteFn, siteBlock = fn.Parent(), pb
-							}
-						}
-					}
-				}
-				flagEdge := sliceFlagEdge(siteFn, siteBlock)
-				if flagEdge == 0 {
-					if len(c.Call.Args) == 2 && argsComeWithFlag(fn, c.Call.Args[1], 0) {
-						nCalls++
-						r.Fail("C16.R4", fmt.Sprintf("%s|%s", funcName(fn), o.Name()), p.Pos(c.Pos()), "the argument list comes with a Call/CallSlice flag but this call is made without consulting it: a spread argument arrives as one list element (or the reverse)")
-					}
-					continue // argument lists built locally (adapters): no flag involved
-				}
-				nCalls++
-				want := "Call"
-				if flagEdge > 0 {
-					want = "CallSlice"
-				}
-				r.Check(o.Name() == want, "C16.R4", fmt.Sprintf("%s|%s", funcName(fn), o.Name()), p.Pos(c.Pos()), "matches the flag computed with the arguments", "the argument list was built for "+want+" but "+o.Name()+" is used: a spread argument arrives as one list element (or the reverse)")
-			}
-		}
-	}
-	r.Floor("C16.R4", nCalls, 6)
+	callFollowsFlag(p, r, m, "C16.R4")
 }
 
 // sliceFlagEdge: +1 when block b is on the true edge of the "use CallSlice" flag, -1 on the false edge, 0 when no such flag controls b.
@@ -549,4 +508,51 @@ func argsComeWithFlag(fn *ssa.Function, v ssa.Value, depth int) bool {
 		}
 	}
 	return false
+}
+
+// callFollowsFlag (C16.R4, C11.R7): reflect's Call / CallSlice are chosen by the flag computed together with the argument list.
+func callFollowsFlag(p *Program, r *Report, m *vmModel, rule string) {
+	r.Explain("\"+rule+\" reflect's Call / CallSlice are chosen by the flag computed together with the argument list at every call site, goroutine and deferred paths included.")
+	// R4: Call / CallSlice follow the flag
+	nCalls := 0
+	for _, fn := range m.fns {
+		for _, b := range fn.Blocks {
+			for _, in := range b.Instrs {
+				c, ok := in.(*ssa.Call)
+				if !ok {
+					continue
+				}
+				o := calleeObj(c)
+				if o == nil || o.Pkg() == nil || o.Pkg().Path() != "reflect" || (o.Name() != "Call" && o.Name() != "CallSlice") || o.Type().(*types.Signature).Recv() == nil {
+					continue
+				}
+				// where is the decision made: here, or where the closure containing the call is created
+				siteFn, siteBlock := fn, b
+				if fn.Parent() != nil {
+					for _, pb := range fn.Parent().Blocks {
+						for _, pin := range pb.Instrs {
+							if mc, ok := pin.(*ssa.MakeClosure); ok && mc.Fn == ssa.Value(fn) {
+								siteFn, siteBlock = fn.Parent(), pb
+							}
+						}
+					}
+				}
+				flagEdge := sliceFlagEdge(siteFn, siteBlock)
+				if flagEdge == 0 {
+					if len(c.Call.Args) == 2 && argsComeWithFlag(fn, c.Call.Args[1], 0) {
+						nCalls++
+						r.Fail(rule, fmt.Sprintf("%s|%s", funcName(fn), o.Name()), p.Pos(c.Pos()), "the argument list comes with a Call/CallSlice flag but this call is made without consulting it: a spread argument arrives as one list element (or the reverse)")
+					}
+					continue // argument lists built locally (adapters): no flag involved
+				}
+				nCalls++
+				want := "Call"
+				if flagEdge > 0 {
+					want = "CallSlice"
+				}
+				r.Check(o.Name() == want, rule, fmt.Sprintf("%s|%s", funcName(fn), o.Name()), p.Pos(c.Pos()), "matches the flag computed with the arguments", "the argument list was built for "+want+" but "+o.Name()+" is used: a spread argument arrives as one list element (or the reverse)")
+			}
+		}
+	}
+	r.Floor(rule, nCalls, 6)
 }
